@@ -24,6 +24,20 @@ if rnd >= 3:
              "features that are each tested alone, at boundary sizes where a representation switches, at behaviour after an "
              "error has occurred once, and at API entry points other than the main one. Each of the three changes must be in a "
              "different source file, and none of them may need a data race or timing to show (deterministic demos only).\n")
+if rnd >= 4:
+    extra = ("\nThis is a fourth round. Earlier rounds already produced, for this and the neighbouring properties: producers that capture "
+             "the stack of their creation; in-place mutation through a missing copy (ToSlice for CopyToSlice, append into spare capacity, "
+             "sorting a shared key slice); caches without invalidation (identifier chains, second-use materialisation); dropped or moved "
+             "recover / nil / type guards; errors lost by variable shadowing or ignored results; stop flags and scratch stacks shared "
+             "between iterations or evaluations; off-by-one and aliasing slips in operator registration; purity flags computed with the "
+             "wrong connective; fast paths that forget one case (an escape, an early exit, a size check); optimizer rules that fold "
+             "something the run time treats differently. Do NOT repeat those shapes. Think about what is left: arithmetic and conversion "
+             "edge cases in helper code (int/float borders, negative or zero sizes and counts, empty and one-element inputs, the largest and "
+             "smallest values), ordering and stability (sort, group, unique, map iteration), string and rune handling (multi-byte runes, "
+             "byte vs rune indices, case mapping), documentation/description paths, type registration and method lookup tables, "
+             "default arguments and optional parameters of built-ins (arity -1 functions, min/max argument counts), and the interplay of "
+             "two built-ins that are each correct alone. Each of the three changes must be in a different source file or in clearly "
+             "unrelated functions, and each demo must fail deterministically.\n")
 t = f"""You are given a scratch git worktree of the Go library hneemann/parser2 at {wt} (a configurable expression language: tokenizer, precedence parser, AST optimizer, closure-compiling evaluator with lists/maps/lazy list operations). Work ONLY inside {wt} (do not read or touch /repo or /verif; do not commit). Go environment for every shell call: `export GOFLAGS=-mod=mod GOPROXY=off` (no network; the module cache has everything; `cd {wt} && go build ./... && go test -vet=off -count=1 ./...` is the existing test suite and passes now).
 
 Here is a semantic property the library is supposed to have:
